@@ -3,6 +3,7 @@ package simsync
 import (
 	realsync "sync"
 	"sync/atomic"
+	"time"
 	"unsafe"
 )
 
@@ -447,6 +448,32 @@ func SimPoint(site int) {
 		return
 	}
 	rpc(req{k: kYield, n: site})
+}
+
+// Now, Since, Until and Sleep stand in for the functions of package time with these names (the scratch rewrite
+// redirects the library's calls): inside a simulation they read and wait on the scheduler's clock; outside one (package
+// initialisation, the oracle process) they read a process-wide counter that starts at the same epoch. The readings carry
+// no monotonic part and are in the local time zone, as time.Now's are. The real clock is never consulted. A process started with
+// VERIF_CLOCK_UNIX=<seconds> starts its clock there (the command-line tool built for invocations "at" a simulated time).
+func Now() time.Time {
+	if getCur() == nil {
+		return time.Unix(0, procClockTick())
+	}
+	return time.Unix(0, int64(rpc(req{k: kNow}).n))
+}
+
+func Since(t time.Time) time.Duration { return Now().Sub(t) }
+
+func Until(t time.Time) time.Duration { return t.Sub(Now()) }
+
+func Sleep(d time.Duration) {
+	if getCur() == nil {
+		if d > 0 {
+			procClockStore(procClockLoad() + int64(d))
+		}
+		return
+	}
+	rpc(req{k: kSleep, n: int(d)})
 }
 
 // Yield is an unconditional scheduling point.
